@@ -255,35 +255,13 @@ def reference(ops, tab, obs, stale_attrs=False):
     return None
 
 
-PROBE_STALE = [[0, NPM, b"a", CONCRETE, b"1.0.0", [[cc.V_TAGS, b"x"]], []],
-               [0, NPM, b"a", CONCRETE, b"1.0.0", [[cc.V_TAGS, b"y"]], []],
-               [1, NPM, b"a", CONCRETE, b"1.0.0"]]
-PROBE_RESORT = [[0, NPM, b"a", CONCRETE, b"1.0.0", [[cc.V_TAGS, b"latest"]], []],
-                [0, NPM, b"a", CONCRETE, b"2.0.0", [], []],
-                [0, NPM, b"a", CONCRETE, b"1.0.0", [], []],
-                [2, NPM, b"a"]]
-
-
-def detect_variant(ctx):
-    """Which replace branch does the tree have?  Decided by replaying the F-C14-1 witness
-    (and, once that is repaired, a history whose order depends on re-sorting)."""
-    o1, o2 = ctx.impl("client_history", [sx([0, [], PROBE_STALE]), sx([0, [], PROBE_RESORT])])
-    r1 = parse_sx(o1)
-    if r1 == [[b"ok", [b"1.0.0", 1, [[cc.V_TAGS, b"x"]]]]]:
-        return 0
-    r2 = parse_sx(o2)
-    if r2 and r2[0][0] == b"ok" and [r[0] for r in r2[0][1]] == [b"2.0.0", b"1.0.0"]:
-        return 1
-    return 2
+PROBE_STALE, PROBE_RESORT = cc.PROBE_STALE, cc.PROBE_RESORT
 
 
 def run(ctx):
     rng = ctx.rng
-    variant = detect_variant(ctx)
-    ctx.notes.append("AddVersion replace branch detected by witness replay: %s" %
-                     ["current (stores the old value back, F-C14-1)", "assigns the new value, no re-sort",
-                      "assigns the new value and re-sorts"][variant])
-    ctx.extra["variant"] = variant
+    variant = cc.detect_variant(ctx)
+    addv = variant[0]
 
     n_hist = ctx.scale(2000, 40000)
     hists = []
@@ -300,6 +278,7 @@ def run(ctx):
     tabs = cc.request_tables(ctx, [needs_of(h) for h in hists])
     cases = [sx([variant, t.parsed, h]) for h, t in zip(hists, tabs)]
     impl, model = ctx.correspond("client_history", cases)
+    lib.kernel_crosscheck(ctx, [("client_history", c, m) for c, m in zip(cases, model) if '"oom"' not in m], maxn=60)
 
     for h, t, line, case in zip(hists, tabs, impl, cases):
         nadd = sum(1 for o in h if o[0] == 0)
@@ -331,7 +310,7 @@ def run(ctx):
             ctx.nontriv(h)
         bad = reference(h, t, obs)
         if bad is not None:
-            pinned = reference(h, t, obs, stale_attrs=True) if variant == 0 else bad
+            pinned = reference(h, t, obs, stale_attrs=True) if addv == 0 else bad
             if pinned is None:
                 # the behaviour is exactly that of the open known finding: first attributes kept
                 n, what, want = bad
